@@ -3,6 +3,9 @@
 import json, os
 HERE = os.path.dirname(os.path.abspath(__file__))
 CLAIMED = {
+ 'C09': ('proof', 'Non-interference argument in three checked steps: fresh record all-zero; after a topology Reset every field (from the record layout) is zero or untouched; with the untouched fields as unconstrained STALE symbols all 65 536 dispatch cells are interpreted and no STALE symbol survives in a transmitted byte, length, pause, allocation size or in the path knowledge of any final state; closed over the abstract states (mapper known?, STALE byte set) reachable afterwards.',
+         'clang AST, lltdsa engine (merging joins away constraints of re-joining paths), port contract; log output is not considered behaviour',
+         'abstract interpretation + origin/taint tracking of pre-Reset state (non-interference)', '4 (C09)'),
  'C03': ('proof', 'Origin analysis of every byte of the frame transmitted on each accepting path of the two Discover cells of the dispatch matrix (mapper state, addresses, generation, ToS all symbolic): exactly one frame, each header byte must be the required constant, port MAC byte or byte of this very Discover.',
          'clang AST, lltdsa engine, port contract (deterministic getters), summary of lltd_state_for_iface (verified by C09/C17 rules)',
          'abstract interpretation with byte-lane/origin terms over the Discover cells', '4 (C03)'),
